@@ -605,6 +605,18 @@ def run(prop: str, tier: str, only=None) -> Result:
     rp.exhaustive = tier != "quick"
     total.merge(rp)
     total.bounds["Tree.diff (inputs that already carry 'dc' metadata)"] = f"{len(pm)} pairs of forests <= 3 nodes over {{a,b,c}} whose nodes all carry stale marks under 'dc' (and another key), x ordered x reduce"
+    # very wide sibling lists (child indexes beyond CPython's small-int cache): an identical copy, two children swapped
+    # far behind index 256, a child removed near the front (every later index shifts), a child appended
+    wide = [(-1, "p", None, None)] + [(0, f"c{k:03d}", None, None) for k in range(300)] + [(300, "leaf", None, None)]
+    sw = list(wide)
+    sw[271], sw[281] = sw[281], sw[271]
+    wp = [(gen.Spec(tuple(wide)), gen.Spec(tuple(wide))), (gen.Spec(tuple(wide)), gen.Spec(tuple(sw))),
+          (gen.Spec(tuple(wide)), gen.Spec(tuple(wide[:6] + [(pp if pp <= 5 else pp - 1, lab, d, k) for pp, lab, d, k in wide[7:]]))),
+          (gen.Spec(tuple(wide)), gen.Spec(tuple(wide + [(0, "new", None, None)])))]
+    rw = parallel(_explicit_pairs_chunk, wp, prop, prop=prop)
+    rw.exhaustive = False
+    total.merge(rw)
+    total.bounds["Tree.diff (very wide sibling lists)"] = "4 pairs over a node with 300 children (identical copy / two children swapped behind index 256 / one removed near the front / one appended), x ordered x reduce"
     pairs = random_pairs(n_rand, n_max, base)
     r = parallel(_explicit_pairs_chunk, pairs, prop, prop=prop)
     r.exhaustive = False
